@@ -1,6 +1,7 @@
 package main
 
 import (
+	"go/types"
 	"sort"
 	"strings"
 
@@ -138,6 +139,41 @@ func runC14(p *Program, r *Report) {
 		for _, callee := range chain[fnm] {
 			cs := callsTo(f, callee)
 			if len(cs) == 0 {
+				// the step handed as a function value to a helper that calls it (a generic decoder given the
+				// method expression): the helper's call of its parameter and f's call of the helper both fail closed
+				okVia, why := false, ""
+				for _, c := range callsIn(f) {
+					h := c.Common().StaticCallee()
+					if h == nil || len(h.Blocks) == 0 {
+						continue
+					}
+					for i, a := range c.Common().Args {
+						if _, isSig := a.Type().Underlying().(*types.Signature); !isSig || i >= len(h.Params) {
+							continue
+						}
+						for _, g := range funcValuesOf(a) {
+							if fnName(g) != callee {
+								continue
+							}
+							ok1, w1 := failsClosed(f, c)
+							ok2, w2 := false, "the helper never calls the function it is given"
+							for _, hc := range callsIn(h) {
+								if hc.Common().Value == ssa.Value(h.Params[i]) {
+									ok2, w2 = failsClosed(h, hc)
+								}
+							}
+							okVia, why = ok1 && ok2, w1+"; "+w2
+						}
+					}
+				}
+				if okVia {
+					r.Ok("R-C14-2", fnm+"->"+callee+":via-helper", p.Pos(f.Pos()), "called through a helper that is given the step as a function value; both calls fail closed")
+					continue
+				}
+				if why != "" {
+					r.Viol("R-C14-2", fnm+"->"+callee+":via-helper", p.Pos(f.Pos()), "the validation step "+callee+" is handed to a helper, but a failure is not propagated: "+why)
+					continue
+				}
 				r.Viol("R-C14-2", fnm+"->"+callee, p.Pos(f.Pos()), "validation step "+callee+" is no longer called from "+fnm)
 				continue
 			}
